@@ -501,3 +501,671 @@ def is_option_impl_rule(syn, crate, prop, rule="C02.R1b"):
                 r.fail(prop, "IS_OPTION-forwarded %s" % m["ident"], "%s! forwards IS_OPTION: a wrapper around Option would be treated as Option while its OptionInnerType is Self" % m["ident"], m["file"], m["line"])
     r.floor = 5
     return r
+
+
+# ------------------------------------------------------------------ C01.R3 / C02.R3: enum representation matrix
+
+def _vm_atom(expr, lets):
+    x = S.squash(expr).lstrip("&")
+    if x in lets:
+        x = S.squash(lets[x]).lstrip("&")
+    if x in ("untagged_variant", "variant_attr.untagged"):
+        return "U"
+    if x in ("enum_attr.tagged()?", "enum_attr.tagged()"):
+        return "T"
+    if x in ("variant.fields",):
+        return "F"
+    if x in ("variant_type.inline_flattened", "variant_type.inline_flattened.as_ref()", "variant_type.inline_flattened.is_some()"):
+        return "IF"
+    if x in ("field_attr.skip",):
+        return "S"
+    return None
+
+
+def _vm_pat(atom, pat, cell):
+    """(matches?, extra_guard_needed) of one sub-pattern against the cell value of atom"""
+    p = S.squash(pat)
+    if p == "_" or re.match(r"^(ref)?(mut)?[a-z_][a-z0-9_]*$", p) and p not in ("true", "false"):
+        return True
+    v = cell[atom]
+    if atom in ("U", "S"):
+        return p == ("true" if v else "false")
+    if atom == "T":
+        return p.startswith("Tagged::" + v)
+    if atom == "F":
+        if p.startswith("Fields::Unit"):
+            return v == "Unit"
+        if p.startswith("Fields::Named"):
+            return v == "Named"
+        if p.startswith("Fields::Unnamed"):
+            return v.startswith("Unnamed")
+        return None
+    if atom == "IF":
+        if p.startswith("Some"):
+            return v == "some"
+        if p == "None":
+            return v == "none"
+    return None
+
+
+def _vm_guard(g, cell, lets):
+    x = S.squash(g)
+    neg = False
+    if x.startswith("!"):
+        neg, x = True, x[1:]
+    m = re.match(r"^(\w+)\.unnamed\.len\(\)==(\d+)$", x)
+    if m:
+        val = (cell["F"] == "Unnamed%s" % m.group(2)) if m.group(2) in ("0", "1") else None
+    else:
+        a = _vm_atom(x, lets)
+        if a in ("U", "S"):
+            val = cell[a]
+        elif a == "IF":
+            val = cell["IF"] == "some"
+        else:
+            return None
+    if val is None:
+        return None
+    return (not val) if neg else val
+
+
+def _vm_arm_fires(me, arm_idx, cell, lets):
+    atoms = [_vm_atom(e, lets) for e in S.tuple_elems(me["scrut"])]
+    if any(a is None for a in atoms):
+        return None
+    for idx, arm in enumerate(me["arms"]):
+        hit = False
+        for alt in S.split_top(arm["pat"], "|"):
+            elems = S.tuple_elems(alt)
+            if len(elems) != len(atoms):
+                continue
+            res = [_vm_pat(a, pe, cell) for a, pe in zip(atoms, elems)]
+            if any(x is None for x in res):
+                return None
+            if all(res):
+                hit = True
+        if hit and arm.get("guard"):
+            g = _vm_guard(arm["guard"], cell, lets)
+            if g is None:
+                return None
+            hit = g
+        if hit:
+            return idx == arm_idx
+    return False
+
+
+def variant_matrix_rule(syn, prop, rule="C01.R3"):
+    r = Result(rule, "enum representation matrix: for every (variant untagged?, enum tagging, field shape, single field skipped?) cell exactly one template of format_variant is selected and it interpolates exactly what serde's representation carries: untagged → payload only; external → name (+payload); adjacent → tag,name (+content,payload); internal → tag,name (+payload), struct variants via the flattened body")
+    fn = syn.fn("types::enum::format_variant", "enum.rs")
+    if fn is None:
+        r.fail(prop, "anchor-missing format_variant", "not found")
+        return r
+    lets_ev = [e for e in S.events(fn, "let") if S.squash(e["pat"]) == "formatted"]
+    pv = [e for e in S.events(fn, "let") if "variant_attr . type_as" in e["init"] and "variant_attr . type_override" in e["init"] and e["init"].lstrip().startswith("match")]
+    if not lets_ev or not pv:
+        r.fail(prop, "anchor-missing format_variant.formatted", "no `let formatted = ..` / payload value", fn["file"], fn["line"])
+        return r
+    lid = lets_ev[0]["id"]
+    P = S.squash(pv[0]["pat"])
+    lets = {S.squash(e["pat"]): e["init"] for e in S.events(fn, "let") if re.match(r"^[a-z_]+$", S.squash(e["pat"]))}
+    match_by_id = {e["id"]: e for e in S.events(fn, "match")}
+    temps = [e for e in templates(fn) if any(c["k"] == "let" and c["id"] == lid for c in e["ctx"])]
+    n_unrec = 0
+    for U in (True, False):
+        for T in ("Externally", "Adjacently", "Internally", "Untagged"):
+            for F in ("Unit", "Unnamed0", "Unnamed1", "Unnamed2", "Named"):
+                for Sk in ((True, False) if F == "Unnamed1" else (False,)):
+                    cell = {"U": U, "T": T, "F": F, "S": Sk, "IF": "some" if F == "Named" else "none"}
+                    active = []
+                    unrec = False
+                    for e in temps:
+                        on = True
+                        after = False
+                        for c in e["ctx"]:
+                            if c["k"] == "let" and c["id"] == lid:
+                                after = True
+                                continue
+                            if not after:
+                                continue
+                            if c["k"] == "match":
+                                me = match_by_id.get(c["id"])
+                                v = _vm_arm_fires(me, c["arm"], cell, lets) if me else None
+                                if v is None:
+                                    unrec = True
+                                elif not v:
+                                    on = False
+                            elif c["k"] == "if":
+                                v = _vm_guard(c["cond"], cell, lets)
+                                if v is None:
+                                    unrec = True
+                                elif (c["branch"] == "then") != v:
+                                    on = False
+                        if on:
+                            active.append(e)
+                    # expected
+                    if U or T == "Untagged":
+                        want = {P}
+                    else:
+                        base = {"Externally": {"ts_name"}, "Adjacently": {"tag", "ts_name"}, "Internally": {"tag", "ts_name"}}[T]
+                        if T == "Internally" and F == "Named":
+                            want = {P}
+                        elif F == "Unit" or (F == "Unnamed1" and Sk):
+                            want = set(base)
+                        else:
+                            want = set(base) | {P} | ({"content"} if T == "Adjacently" else set())
+                    cname = "%s/%s/%s%s" % ("variant-untagged" if U else "tagged-by-enum", T, F, "/skipped" if Sk else "")
+                    if unrec:
+                        n_unrec += 1
+                        continue
+                    got = [set(S.interpolations(e["tokens"])) for e in active]
+                    ok = len(active) == 1 and got[0] == want
+                    # literal skeleton and argument order of the selected template
+                    if ok and not (U or T == "Untagged" or (T == "Internally" and F == "Named")):
+                        with_payload = P in want
+                        skel = {("Externally", False): '"{}"', ("Externally", True): '{{"{}":{}}}',
+                                ("Adjacently", False): '{{"{}":"{}"}}', ("Adjacently", True): '{{"{}":"{}","{}":{}}}',
+                                ("Internally", False): '{{"{}":"{}"}}', ("Internally", True): '{{"{}":"{}"}}&{}'}[(T, with_payload)]
+                        order = {"Externally": ["ts_name"], "Adjacently": ["tag", "ts_name"], "Internally": ["tag", "ts_name"]}[T] + \
+                            ((["content"] if T == "Adjacently" else []) + [P] if with_payload else [])
+                        fc = S.format_calls(active[0]["tokens"])
+                        lit = S.squash(S.unquote(fc[0][0]) or "") if fc else None
+                        args = ["".join(S.flat(a)).lstrip("#") for a in fc[0][1]] if fc else None
+                        if lit != skel or args != order:
+                            ok = False
+                            r.fail(prop, "variant-shape %s" % cname,
+                                   "for %s the template is format!(%r, %s); serde's representation is %r over %s" % (cname, lit, args, skel, order), fn["file"], active[0]["line"])
+                            r.inst(cell=cname, literal=lit, args=args, expected_literal=skel, expected_args=order, ok=False)
+                            continue
+                    r.inst(cell=cname, selected=[e["line"] for e in active], interpolates=[sorted(g) for g in got], expected=sorted(want), ok=ok)
+                    if not ok:
+                        r.fail(prop, "variant-matrix %s" % cname,
+                               "for %s format_variant selects template(s) at line(s) %s interpolating %s; serde's representation carries %s"
+                               % (cname, [e["line"] for e in active], [sorted(g) for g in got], sorted(want)), fn["file"], active[0]["line"] if active else fn["line"])
+    if n_unrec:
+        r.fail(prop, "unrecognised-idiom format_variant matrix", "%d cells could not be evaluated: the representation match uses a scrutinee/guard shape the evaluator does not know" % n_unrec, fn["file"], fn["line"])
+    r.floor = 48
+    return r
+
+
+def enum_flatten_parens_rule(syn, prop, rule="C14.R6"):
+    r = Result(rule, "an enum's inline_flattened() always parenthesises the union (it is intersected with the parent's fields, and `&` binds tighter than `|`)")
+    fn = syn.fn("types::enum::r#enum_def", "enum.rs") or syn.fn("r#enum_def", "enum.rs") or syn.fn("enum_def", "enum.rs")
+    if fn is None:
+        r.fail(prop, "anchor-missing enum_def", "not found")
+        return r
+    n = 0
+    for e in templates(fn):
+        if not any(c["k"] == "field_init" and S.squash(c["field"]) == "inline_flattened" for c in e["ctx"]):
+            continue
+        fc = S.format_calls(e["tokens"])
+        lits = [S.unquote(l) for l, _ in fc if l]
+        ok = bool(lits) and all(x.startswith("(") and x.endswith(")") for x in lits) and "join" in S.flat(e["tokens"])
+        n += 1
+        r.inst(fn=fn["qual"], where="%s:%s" % (fn["file"], e["line"]), literals=lits, parenthesised=ok)
+        if not ok:
+            r.fail(prop, "enum-flatten-unparenthesised", "a template for the enum's inline_flattened() does not wrap the union in parentheses: flattened next to other fields, `{..} & A | B` parses as `({..} & A) | B`",
+                   fn["file"], e["line"])
+    if n == 0:
+        r.fail(prop, "anchor-missing enum inline_flattened template", "no template initialises DerivedTS.inline_flattened in enum_def", fn["file"], fn["line"])
+    r.floor = 1
+    return r
+
+
+# ------------------------------------------------------------------ C09
+
+def naming_precedence_rule(syn, prop, rule="C09.R2"):
+    r = Result(rule, "at every naming site (two in named::format_field, one in enum::format_variant): explicit `rename` is used verbatim; otherwise `rename_all` is applied to the un-raw'ed identifier; otherwise the un-raw'ed identifier is used")
+    sites = []
+    for qual, fsuf in (("types::named::format_field", "named.rs"), ("types::enum::format_variant", "enum.rs")):
+        fn = syn.fn(qual, fsuf)
+        if fn is None:
+            r.fail(prop, "anchor-missing " + qual, "not found")
+            continue
+        for e in S.events(fn, "match"):
+            el = [S.squash(x) for x in S.tuple_elems(e["scrut"])]
+            if len(el) == 2 and re.search(r"\.rename(\.as_ref\(\)|\.clone\(\))?$", el[0]) and re.search(r"rename_all$", el[1]):
+                sites.append((fn, e))
+    for fn, e in sites:
+        arms = [a["pat"] for a in e["arms"]]
+        verdict = {}
+        for cell, nm in ((("some", "some"), "rename+rename_all"), (("some", "none"), "rename"), (("none", "some"), "rename_all"), (("none", "none"), "neither")):
+            i = S.first_match(arms, cell)
+            body = S.squash(e["arms"][i]["body"]) if i is not None else ""
+            applies = ".apply(" in body
+            # identifier source: to_ts_ident(..) / .unraw()
+            ident_src = bool(re.search(r"field_name|unraw\(\)", body))
+            if cell[0] == "some":
+                ok = (not applies) and not ident_src and i is not None
+            elif cell[1] == "some":
+                ok = applies and ident_src
+            else:
+                ok = (not applies) and ident_src
+            verdict[nm] = ok
+            r.inst(fn=fn["qual"], where="%s:%s" % (fn["file"], e["line"]), cell=nm, arm=(arms[i] if i is not None else None), ok=ok)
+            if not ok:
+                r.fail(prop, "naming-precedence %s [%s]" % (fn["qual"], nm), "naming site at line %d: for %s the arm `%s` yields `%s`" % (e["line"], nm, arms[i] if i is not None else "-", e["arms"][i]["body"][:80] if i is not None else "-"),
+                       fn["file"], e["line"])
+    # the identifier fed to the sites is un-raw'ed
+    ff = syn.fn("types::named::format_field", "named.rs")
+    if ff:
+        fl = [e for e in S.events(ff, "let") if S.squash(e["pat"]) == "field_name"]
+        ok = bool(fl) and all(S.squash(e["init"]).startswith("to_ts_ident(") for e in fl)
+        r.inst(fn=ff["qual"], field_name_from=[e["init"] for e in fl], unrawed=ok)
+        if not ok:
+            r.fail(prop, "raw-identifier-name named::format_field", "field_name is not produced by to_ts_ident(..)", ff["file"], ff["line"])
+    r.floor = 13
+    return r
+
+
+def rename_all_fields_rule(syn, prop, rule="C09.R3"):
+    r = Result(rule, "StructAttr::from_variant: a variant's own rename_all wins, otherwise the enum's rename_all_fields applies to struct variants only, and nothing to tuple/unit variants")
+    fn = syn.fn("StructAttr::from_variant", "attr/struct.rs")
+    if fn is None:
+        r.fail(prop, "anchor-missing StructAttr::from_variant", "not found")
+        return r
+    st = [e for e in S.events(fn, "struct") if S.squash(e["path"]) == "Self"]
+    val = None
+    for f in (st[0]["fields"] if st else []):
+        if f["name"] == "rename_all":
+            val = S.squash(f["value"])
+    ok1 = val is not None and val.startswith("variant_attr.rename_all.or(")
+    r.inst(fn=fn["qual"], rename_all=val, variant_first=ok1)
+    if not ok1:
+        r.fail(prop, "rename_all_fields-precedence StructAttr::from_variant", "rename_all of a struct variant is `%s`: the variant's own #[..(rename_all)] must take precedence over the enum's rename_all_fields (serde's order)" % val, fn["file"], fn["line"])
+    ok2 = False
+    for m in S.events(fn, "match"):
+        if S.squash(m["scrut"]) == "variant_fields" and any(c["k"] == "field_init" and S.squash(c["field"]) == "rename_all" for c in m["ctx"]):
+            named = [a for a in m["arms"] if "Fields::Named" in S.squash(a["pat"])]
+            others = [a for a in m["arms"] if "Fields::Named" not in S.squash(a["pat"])]
+            ok2 = bool(named) and all(S.squash(a["body"]) == "enum_attr.rename_all_fields" for a in named) and bool(others) and all(S.squash(a["body"]) == "None" for a in others)
+            r.inst(fn=fn["qual"], routing={S.squash(a["pat"]): S.squash(a["body"]) for a in m["arms"]}, ok=ok2)
+    if not ok2:
+        r.fail(prop, "rename_all_fields-routing StructAttr::from_variant", "rename_all_fields is not routed to named variants only", fn["file"], fn["line"])
+    r.floor = 2
+    return r
+
+
+def shared_conversion_rule(crate, prop, rule="C09.R1"):
+    from vlib import mirlib as M
+    r = Result(rule, "field sites and variant sites must not share one context-free case conversion: serde converts field names assuming snake_case sources and variant names assuming PascalCase sources, and the two functions differ")
+    sites = {"field": [], "variant": []}
+    for path, role in (("types::named::format_field", "field"), ("types::r#enum::format_variant", "variant")):
+        b = crate.body(path)
+        if b is None:
+            r.fail(prop, "anchor-missing " + path, "not found")
+            continue
+        for blk, t in b.calls():
+            if b.is_cleanup(blk):
+                continue
+            at = t.get("arg_tys") or []
+            if at and at[0] == "attr::Inflection":
+                extra = tuple(json_const(a) for a in t["args"][1:])
+                sites[role].append((t["fn"].get("res") or t["fn"]["path"], tuple(x for x in extra if x is not None), M.user_span(t["span"])))
+    for role, lst in sites.items():
+        for callee, extra, (f, l) in lst:
+            r.inst(role=role, callee=callee, constant_context_args=list(extra), where="%s:%s" % (f, l))
+    fs = {(c, e) for c, e, _ in sites["field"]}
+    vs = {(c, e) for c, e, _ in sites["variant"]}
+    if not fs or not vs:
+        r.fail(prop, "anchor-missing conversion sites", "no Inflection conversion call at field/variant sites")
+    shared = fs & vs
+    for c, e in sorted(shared):
+        r.fail(prop, "shared-case-conversion field+variant -> %s" % c,
+               "both struct fields and enum variants are converted by %s with no distinguishing context: e.g. field `fooBar` under snake_case becomes `foo_bar` (serde keeps `fooBar`), variant `Foo_Bar` under camelCase becomes `fooBar` (serde: `foo_Bar`)" % c,
+               sites["field"][0][2][0], sites["field"][0][2][1])
+    r.floor = 3
+    return r
+
+
+def json_const(op):
+    if op["k"] == "const":
+        c = op["c"]
+        return c.get("str") or c.get("int") or c.get("dbg")
+    return None
+
+
+# ------------------------------------------------------------------ C04
+
+def layout_rule(crate, prop, rule="C04.R1"):
+    from vlib import mirlib as M
+    from vlib.mirlib import fn_matches
+    r = Result(rule, "file layout by dominance in export_to_string: the notice is the first write, then generate_imports, then generate_decl, then a final newline on every Ok path; in generate_decl: docs (if any), then `export `, then T::decl()")
+    b = crate.body("export::export_to_string")
+    if b is None:
+        r.fail(prop, "anchor-missing export_to_string", "not found")
+        return r
+    seq = []
+    for blk, t in b.calls():
+        if b.is_cleanup(blk):
+            continue
+        if fn_matches(t, r"string::String::push_str$"):
+            c = M.op_const(t["args"][1]) if len(t["args"]) > 1 else None
+            org = M.origins(b, M.op_local(t["args"][1])) if len(t["args"]) > 1 and M.op_local(t["args"][1]) is not None else []
+            is_note = any(o["kind"] == "const" and (o["c"] or {}).get("uneval", "").endswith("NOTE") or (o["kind"] == "const" and "NOTE" in ((o["c"] or {}).get("dbg") or "")) for o in org) or (c and "NOTE" in (c.get("dbg") or ""))
+            seq.append(("note" if is_note else "push_str", blk))
+        elif fn_matches(t, r"export::generate_imports$"):
+            seq.append(("imports", blk))
+        elif fn_matches(t, r"export::generate_decl$"):
+            seq.append(("decl", blk))
+        elif fn_matches(t, r"string::String::push$"):
+            c = M.op_const(t["args"][1]) if len(t["args"]) > 1 else None
+            seq.append(("newline" if c and c.get("int") == 10 else "push", blk))
+    kinds = {k: blk for k, blk in seq}
+    r.inst(fn=b.path, writes=[k for k, _ in seq])
+    need = ["note", "imports", "decl", "newline"]
+    for k in need:
+        if k not in kinds:
+            r.fail(prop, "layout-missing %s" % k, "export_to_string has no `%s` step" % k, b.file(), b.line())
+    if all(k in kinds for k in need):
+        for a, c in zip(need, need[1:]):
+            ok = b.dominates(kinds[a], kinds[c])
+            r.inst(order="%s before %s" % (a, c), ok=ok)
+            if not ok:
+                r.fail(prop, "layout-order %s/%s" % (a, c), "`%s` does not dominate `%s` in export_to_string" % (a, c), b.file(), b.line())
+        extra = [k for k, _ in seq if k in ("push_str", "push")]
+        if extra:
+            r.fail(prop, "layout-extra-write export_to_string", "additional raw writes to the buffer: %s" % extra, b.file(), b.line())
+        # newline is the last write on Ok paths: no write reachable after it
+        after = b.reachable_from([b.term(kinds["newline"])["target"]])
+        late = [k for k, blk in seq if blk in after and blk != kinds["newline"]]
+        if late:
+            r.fail(prop, "layout-after-newline export_to_string", "writes after the final newline: %s" % late, b.file(), b.line())
+    g = crate.body("export::generate_decl")
+    if g is None:
+        r.fail(prop, "anchor-missing generate_decl", "not found")
+        return r
+    steps = []
+    for blk, t in g.calls():
+        if g.is_cleanup(blk):
+            continue
+        if fn_matches(t, r"string::String::push_str$"):
+            c = M.op_const(t["args"][1]) if len(t["args"]) > 1 else None
+            org0 = M.origins(g, M.op_local(t["args"][1])) if len(t["args"]) > 1 and M.op_local(t["args"][1]) is not None else []
+            cs = [o["c"] for o in org0 if o["kind"] == "const" and o["c"] and o["c"].get("str") is not None]
+            if c is None and len(cs) == 1 and len(org0) == 1:
+                c = cs[0]
+            if c and c.get("str") is not None:
+                steps.append(("lit:" + c["str"], blk))
+            else:
+                org = M.origins(g, M.op_local(t["args"][1]))
+                if any(o["kind"] == "call" and fn_matches(o["t"], r"TS::decl$") for o in org):
+                    steps.append(("decl", blk))
+                else:
+                    steps.append(("docs", blk))
+        elif fn_matches(t, r"TS::decl$"):
+            steps.append(("call-decl", blk))
+    km = {}
+    for k, blk in steps:
+        km.setdefault(k, blk)
+    r.inst(fn=g.path, steps=[k for k, _ in steps])
+    ok = "lit:export " in km and "decl" in km and g.dominates(km["lit:export "], km["decl"]) and \
+        ("docs" not in km or km["docs"] not in g.reachable_from([km["lit:export "]]))
+    if not ok:
+        r.fail(prop, "decl-layout generate_decl", "generate_decl does not write [docs] `export ` decl in this order (steps: %s)" % [k for k, _ in steps], g.file(), g.line())
+    lits = [k for k, _ in steps if k.startswith("lit:")]
+    if lits != ["lit:export "]:
+        r.fail(prop, "decl-layout-literals generate_decl", "unexpected literal writes %s" % lits, g.file(), g.line())
+    r.floor = 5
+    return r
+
+
+def quoting_rule(syn, prop, rule="C04.R2"):
+    r = Result(rule, "every property-name slot of a member template in named::format_field is filled from a variable bound directly to raw_name_to_ts_field(..) (names that are not identifier-like get quoted)")
+    fn = syn.fn("types::named::format_field", "named.rs")
+    if fn is None:
+        r.fail(prop, "anchor-missing format_field", "not found")
+        return r
+    n = 0
+    for e in templates(fn):
+        if not any(c["k"] == "arg" and S.squash(c["of"]) == "formatted_fields.push" for c in e["ctx"]):
+            continue
+        for lit, args in S.format_calls(e["tokens"]):
+            v = S.unquote(lit) or ""
+            m = re.match(r"^(\{\})(\{\})(\{\})?: \{\},$", v)
+            if not m:
+                r.fail(prop, "member-template-shape format_field", "member template literal %r is not `<docs><name>[?]: <type>,`" % v, fn["file"], e["line"])
+                continue
+            name_var = "".join(S.flat(args[1])).lstrip("#") if len(args) > 1 else None
+            lets = [x for x in S.events(fn, "let") if S.squash(x["pat"]) == name_var and x["seq"] < e["seq"]]
+            ok = bool(lets) and S.squash(lets[-1]["init"]).startswith("raw_name_to_ts_field(") and S.squash(lets[-1]["init"]).endswith(")") \
+                and S.squash(lets[-1]["init"]).count("raw_name_to_ts_field(") == 1
+            # same scope: the let must be in a ctx that is a prefix of the template's ctx
+            n += 1
+            r.inst(fn=fn["qual"], where="%s:%s" % (fn["file"], e["line"]), name_slot=name_var, bound_to=(lets[-1]["init"] if lets else None), quoted=ok)
+            if not ok:
+                r.fail(prop, "unquoted-property-name format_field #%s" % name_var,
+                       "the property name interpolated at line %d (#%s) is not the direct result of raw_name_to_ts_field(..): names such as `foo-bar` would be emitted unquoted" % (e["line"], name_var),
+                       fn["file"], e["line"])
+    r.floor = 2
+    return r
+
+
+def unraw_rule(syn, prop, rule="C04.R3"):
+    r = Result(rule, "every identifier turned into text for TypeScript output goes through IdentExt::unraw() or to_ts_ident() (r#type is emitted as `type`)")
+    exempt = {("utils::format_generics", "type_param.ident"): "type-parameter identifier (cannot be raw)",
+              ("DerivedTS::generate_export_test", "rust_ty"): "name of the generated Rust test fn; `r#` is stripped by replace",
+              ("utils::to_ts_ident", "ident"): "this is the un-raw routine itself"}
+    for fn in syn.fns:
+        if not (fn["file"].startswith("macros/src/types/") or fn["file"] in ("macros/src/lib.rs", "macros/src/utils.rs")):
+            continue
+        for e in S.events(fn, "mcall"):
+            if e["method"] != "to_string":
+                continue
+            recv = S.squash(e["recv"])
+            if not re.search(r"(^|\.)ident(\.|$)|^rust_ty$|^ident$", recv):
+                continue
+            ok = ".unraw()" in recv
+            ex = exempt.get((fn["qual"], recv))
+            r.inst(fn=fn["qual"], expr=recv + ".to_string()", where="%s:%s" % (fn["file"], e["line"]), unrawed=ok, exempt=ex)
+            if not ok and not ex:
+                r.fail(prop, "raw-identifier-text %s %s" % (fn["qual"], recv), "`%s.to_string()` without unraw(): a raw identifier would appear as `r#..` in TypeScript" % recv, fn["file"], e["line"])
+    r.floor = 6
+    return r
+
+
+def quoted_sink_rule(syn, prop, rule="C04.R4"):
+    r = Result(rule, "user-controlled strings (tag, content, rename / variant names, property names) interpolated between double quotes pass an escaping routine; none exists, so every quoted sink is reported per function")
+    esc_fns = [f for f in syn.fns_in("macros/src") if re.search(r"escape", f["name"])]
+    per_fn = {}
+    for fn in syn.fns:
+        if not fn["file"].startswith("macros/src/types/") and fn["file"] != "macros/src/utils.rs":
+            continue
+        for e in fn["events"]:
+            if e["kind"] != "macro":
+                continue
+            calls = []
+            if e["name"] in QUOTES:
+                calls = S.format_calls(e["tokens"])
+            elif e["name"] == "format":
+                toks = e["tokens"]
+                if toks and isinstance(toks[0], str):
+                    args, cur = [], []
+                    for x in toks[1:]:
+                        if x == ",":
+                            if cur:
+                                args.append(cur)
+                            cur = []
+                        else:
+                            cur.append(x)
+                    if cur:
+                        args.append(cur)
+                    calls = [(toks[0], args)]
+            for lit, args in calls:
+                v = S.unquote(lit) or ""
+                # which slots sit between double quotes?
+                slots = [m.start() for m in re.finditer(r"\{\w*\}", re.sub(r"\{\{|\}\}", "##", v))]
+                vv = re.sub(r"\{\{|\}\}", "##", v)
+                k = 0
+                for m in re.finditer(r"\{(\w*)\}", vv):
+                    quoted = m.start() > 0 and vv[m.start() - 1] == '"' and m.end() < len(vv) and vv[m.end()] == '"'
+                    if quoted:
+                        arg = "".join(S.flat(args[k])) if k < len(args) and not m.group(1) else m.group(1)
+                        escaped = any(f["name"] in arg for f in esc_fns)
+                        if not escaped:
+                            per_fn.setdefault(fn["qual"], []).append((e["line"], arg, v))
+                    if not m.group(1):
+                        k += 1
+    for q, lst in sorted(per_fn.items()):
+        fn = [f for f in syn.fns if f["qual"] == q][0]
+        r.inst(fn=q, quoted_sinks=len(lst), samples=[{"line": l, "arg": a, "literal": v} for l, a, v in lst[:4]])
+        r.fail(prop, "unescaped-quoted-sink %s x%d" % (q, len(lst)),
+               "%d interpolation(s) between double quotes without escaping (e.g. %s at line %d): a `\"` or `\\` in a rename/tag/content string breaks the string literal in the generated .ts" % (len(lst), lst[0][1], lst[0][0]),
+               fn["file"], lst[0][0])
+    r.floor = 3
+    return r
+
+
+# ------------------------------------------------------------------ C15
+
+def docs_noninterference_rule(syn, prop, rule="C15.R1"):
+    r = Result(rule, "documentation text flows only into documentation sinks: every read of a `docs` field is a propagation into another `docs` field, part of Attr::merge, the emptiness test choosing the doc prefix, or the doc text itself in the first slot of a member template / the DOCS constant")
+    for fn in syn.fns_in("macros/src"):
+        for e in S.events(fn, "field"):
+            if e["member"] != "docs":
+                continue
+            role = None
+            if any(c["k"] == "field_init" and S.squash(c["field"]) == "docs" for c in e["ctx"]):
+                role = "propagate to docs field"
+            elif fn["name"] == "merge":
+                role = "merge"
+            elif any(c["k"] == "scrut" for c in e["ctx"]) and any(c["k"] == "let" and S.squash(c["pat"]) == "docs" for c in e["ctx"]):
+                role = "emptiness test / value for the doc prefix"
+            elif any(c["k"] == "let" and S.squash(c["pat"]) == "docs" for c in e["ctx"]):
+                role = "doc prefix value"
+            elif any(c["k"] == "assign_rhs" and S.squash(c["lhs"]).endswith(".docs") for c in e["ctx"]):
+                role = "store into docs field"
+            elif any(S.squash(a["lhs"]) == S.squash(e["base"]) + ".docs" and a["line"] == e["line"] for a in S.events(fn, "assign")):
+                role = "assignment target (docs field being set)"
+            r.inst(fn=fn["qual"], read=S.squash(e["base"]) + ".docs", where="%s:%s" % (fn["file"], e["line"]), role=role)
+            if role is None:
+                r.fail(prop, "docs-read-outside-doc-sinks %s" % fn["qual"], "`%s.docs` is read in a context that is not a documentation sink: doc comments could influence the declared type" % S.squash(e["base"]),
+                       fn["file"], e["line"])
+        # locals named `docs` may only be interpolated as the first format argument or as the DOCS constant
+        for e in templates(fn):
+            if "docs" not in S.interpolations(e["tokens"]):
+                continue
+            ok = False
+            for lit, args in S.format_calls(e["tokens"]):
+                if args and "".join(S.flat(args[0])) == "#docs" and all("".join(S.flat(a)) != "#docs" for a in args[1:]):
+                    ok = True
+            if "DOCS" in S.flat(e["tokens"]) or S.flat(e["tokens"]) == ["#", "docs"]:
+                ok = True
+            if fn["name"] == "into_impl" and not S.format_calls(e["tokens"]):
+                ok = True
+            r.inst(fn=fn["qual"], template_with_docs=e["line"], docs_first_slot=ok)
+            if not ok:
+                r.fail(prop, "docs-not-first-slot %s" % fn["qual"], "#docs is interpolated somewhere other than the leading slot of a member template / the DOCS constant", fn["file"], e["line"])
+    r.floor = 10
+    return r
+
+
+def docs_slot_rule(syn, prop, rule="C15.R2a"):
+    r = Result(rule, "both member templates of named::format_field (type-override branch and normal branch) carry the field's documentation in their first slot")
+    fn = syn.fn("types::named::format_field", "named.rs")
+    if fn is None:
+        r.fail(prop, "anchor-missing format_field", "not found")
+        return r
+    n = 0
+    for e in templates(fn):
+        if not any(c["k"] == "arg" and S.squash(c["of"]) == "formatted_fields.push" for c in e["ctx"]):
+            continue
+        fc = S.format_calls(e["tokens"])
+        ok = bool(fc) and bool(fc[0][1]) and "".join(S.flat(fc[0][1][0])) == "#docs"
+        n += 1
+        r.inst(fn=fn["qual"], where="%s:%s" % (fn["file"], e["line"]), docs_first=ok)
+        if not ok:
+            r.fail(prop, "member-docs-dropped format_field", "a member template does not start with the field's doc comment: documentation of that field would be lost", fn["file"], e["line"])
+    # the docs value is "\n" + docs when non-empty
+    lets = [e for e in S.events(fn, "let") if S.squash(e["pat"]) == "docs"]
+    ok = len(lets) >= 2 and all("field_attr.docs.is_empty()" in S.squash(e["init"]) and 'format!("\\n{}",&field_attr.docs)' in S.squash(e["init"]) for e in lets)
+    r.inst(fn=fn["qual"], doc_prefix_bindings=len(lets), ok=ok)
+    if not ok:
+        r.fail(prop, "doc-prefix-shape format_field", "`docs` is not `\"\\n\" + field docs` when non-empty / empty otherwise at both sites", fn["file"], fn["line"])
+    r.floor = 3
+    return r
+
+
+def docs_containment_rule(crate, syn, prop, rule="C15.R3"):
+    from vlib import mirlib as M
+    from vlib.mirlib import fn_matches
+    r = Result(rule, "doc text is neutralised before it is wrapped in /** .. */: the value of every doc literal passes str::replace(\"*/\", ..) on the way from LitStr::value() to the collected strings")
+    bodies = [b for b in crate.bodies if b.path.startswith("utils::parse_docs")]
+    if not bodies:
+        r.fail(prop, "anchor-missing parse_docs", "not found")
+        return r
+    n_src = 0
+    for b in bodies:
+        for blk, t in b.calls():
+            if b.is_cleanup(blk) or not fn_matches(t, r"syn::LitStr::value$"):
+                continue
+            n_src += 1
+            # forward: the value must flow into a replace("*/", _)
+            d = t["dst"]["l"]
+            ok = False
+            for bb, tt in b.calls():
+                if fn_matches(tt, r"str::<impl str>::replace") and len(tt["args"]) >= 2:
+                    c = M.op_const(tt["args"][1]) or {}
+                    if c.get("str") == "*/" and any(o["kind"] == "call" and o["block"] == blk for o in M.origins(b, M.op_local(tt["args"][0]))):
+                        # and the Ok(..) result derives from the replace
+                        ok = True
+            f, l = M.user_span(t["span"])
+            r.inst(fn=b.path, source="LitStr::value()", where="%s:%s" % (f, l), terminator_neutralised=ok)
+            if not ok:
+                r.fail(prop, "doc-terminator-unescaped parse_docs", "doc text reaches the /** .. */ wrapper without neutralising `*/`: `/// glob **/*.rs` ends the comment early and the rest is read as code", f, l)
+    if n_src == 0:
+        r.fail(prop, "anchor-missing doc literal source", "no LitStr::value() in parse_docs")
+    r.floor = 1
+    return r
+
+
+def docs_separator_rule(syn, crate, prop, rule="C15.R4"):
+    r = Result(rule, "producer/consumer contract between doc rendering and merge(): merge() splits file content on blank lines, so text placed into a declaration must not contain one; the block-doc branch of parse_docs copies the comment verbatim")
+    fn = syn.fn("utils::parse_docs", "utils.rs") or syn.fn("parse_docs", "utils.rs")
+    mg = crate.body("export::merge")
+    if fn is None or mg is None:
+        r.fail(prop, "anchor-missing parse_docs/merge", "not found")
+        return r
+    from vlib import mirlib as M
+    splits = []
+    for blk, t in mg.calls():
+        if M.fn_matches(t, r"str::<impl str>::(split|split_once)") and len(t["args"]) >= 2:
+            c = M.op_const(t["args"][1]) or {}
+            if c.get("str") == "\n\n":
+                splits.append(t["span"]["line"])
+    r.inst(consumer="export::merge", splits_on_blank_line_at=splits)
+    verbatim = []
+    for e in S.events(fn, "macro"):
+        if e["name"] == "format" and any(c["k"] == "match" and S.squash(c["scrut"]) == "doc_attrs.len()" and S.squash(c["pat"]) == "1" for c in e["ctx"]):
+            lit = S.unquote(e["tokens"][0]) if e["tokens"] and isinstance(e["tokens"][0], str) else ""
+            if lit.startswith("/**{}"):
+                verbatim.append(e["line"])
+    sanit = [e for e in S.events(fn, "mcall") if e["method"] in ("lines", "split", "replace") and "\\n\\n" in " ".join(e["args"])]
+    r.inst(producer="utils::parse_docs", verbatim_block_doc_at=verbatim, blank_line_sanitiser=bool(sanit))
+    if splits and verbatim and not sanit:
+        r.fail(prop, "merge-separator-unenforced parse_docs -> merge",
+               "a block doc comment is copied verbatim (line %s) while merge() cuts declarations at blank lines (line %s): a blank line inside /** .. */ splits the declaration when a second type is merged into the file" % (verbatim, splits),
+               fn["file"], verbatim[0])
+    r.floor = 2
+    return r
+
+
+def struct_tag_first_rule(syn, prop, rule="C01.R4"):
+    r = Result(rule, "for a struct-level tag (and internally tagged struct variants) named() emits the tag property before any field, quoted, with the type's name as string literal")
+    fn = syn.fn("types::named::named", "named.rs")
+    if fn is None:
+        r.fail(prop, "anchor-missing named", "not found")
+        return r
+    tag_t = [e for e in templates(fn) if any(c["k"] == "if" and "attr . tag" in c["cond"] and c["branch"] == "then" for c in e["ctx"])]
+    loops = [e for e in S.events(fn, "for")]
+    ok = bool(tag_t) and bool(loops) and tag_t[0]["seq"] < loops[0]["seq"]
+    lit = None
+    if tag_t:
+        fc = S.format_calls(tag_t[0]["tokens"])
+        lit = S.squash(S.unquote(fc[0][0]) or "") if fc else None
+        args = ["".join(S.flat(a)).lstrip("#") for a in fc[0][1]] if fc else None
+        ok = ok and lit == '"{}":"{}",' and args == ["tag", "ts_name"] and any(c["k"] == "arg" and S.squash(c["of"]) == "formatted_fields.push" for c in tag_t[0]["ctx"])
+    r.inst(fn=fn["qual"], tag_template=lit, before_field_loop=ok)
+    if not ok:
+        r.fail(prop, "struct-tag-shape named", "the tag property is not emitted first as `\"<tag>\": \"<name>\",`", fn["file"], fn["line"])
+    r.floor = 1
+    return r
